@@ -1752,6 +1752,10 @@ class ForAll(QuantifiedConditional):
                 solution_set = []
                 break
 
+        if solution_set is None:
+            # the quantified variable has no values: the condition holds vacuously for the incoming bindings
+            solution_set = [{}]
+
         # Yield the remaining bindings (non-universal) merged with the incoming sources
         yield from [
             OperationResult({**sources, **sol}, False, self) for sol in solution_set
